@@ -38,9 +38,9 @@ def uid_program(draw):
         fe = draw(gen_prog.FE)
         coll = draw(st.sampled_from(colls))
         if op == "PUT":
-            steps.append({"op": "PUT", "fe": fe, "coll": coll, "name": draw(st.sampled_from(names)), "ctype": "text/calendar", "body": enc_body(draw(st.sampled_from(bodies))["raw"]), "cond": []})
+            steps.append({"op": "PUT", "fe": fe, "coll": coll, "name": draw(st.sampled_from(names)), "ctype": draw(st.sampled_from(gen_prog.CAL_CTYPES)), "body": enc_body(draw(st.sampled_from(bodies))["raw"]), "cond": []})
         elif op == "POST":
-            steps.append({"op": "POST", "fe": fe, "coll": coll, "ctype": "text/calendar", "body": enc_body(draw(st.sampled_from(bodies))["raw"])})
+            steps.append({"op": "POST", "fe": fe, "coll": coll, "ctype": draw(st.sampled_from(gen_prog.CAL_CTYPES)), "body": enc_body(draw(st.sampled_from(bodies))["raw"])})
         elif op == "DELETE":
             steps.append({"op": "DELETE", "fe": fe, "coll": coll, "name": draw(st.sampled_from(names)), "cond": []})
         else:
@@ -67,7 +67,7 @@ def uid_release_program(draw):
     steps = [{"op": "MKCOL", "fe": draw(gen_prog.FE), "coll": "c1", "kind": "mkcalendar"}]
 
     def put(n, u):
-        steps.append({"op": "PUT", "fe": draw(gen_prog.FE), "coll": coll, "name": n, "ctype": "text/calendar", "body": body(u), "cond": []})
+        steps.append({"op": "PUT", "fe": draw(gen_prog.FE), "coll": coll, "name": n, "ctype": draw(st.sampled_from(gen_prog.CAL_CTYPES)), "body": body(u), "cond": []})
 
     def delete(n):
         steps.append({"op": "DELETE", "fe": draw(gen_prog.FE), "coll": coll, "name": n, "cond": []})
